@@ -15,7 +15,7 @@ pub fn meta() -> Meta {
     Meta {
         id: "C01",
         level: "exploration",
-        rule: "bounded exhaustive enumeration of FASTA inputs, every one built through the real SkaDict::new and compared with the string/set reference model: (a) every single record over {A,C,G,T,N} up to the tier's length (quick 8, thorough 10) at k=5 and k=7 (quick tier at k=7: strands-merged/64-bit and single-strand/128-bit only); (b) for all 30 k, every prefix (k-1..k+3) of a repeat-free base string with N/n at every single position and every pair of positions, in three case patterns; (b2) for all 30 k two N with 0..k valid bases between them (or the record start in place of the first N) and k+2 valid bases behind; (c) forced collisions: every k-mer (k=5; a stride subset at k=7) followed by every combination of two further observations of the same arms with another middle base, as is or reverse-complemented; (d) every ordered triple from a pool of records of length below/at/above k; (e) k-mers on both sides of an N run: L+N+R for all k-mers L x representative R and representative L x all (k+1)-mers R (thorough: full product), so that any state carried across a restart is exercised; each in both strand modes and both integer widths where valid; plus CLI build+nk report comparison. Non-trivial = the model expects at least one split k-mer.".into(),
+        rule: "bounded exhaustive enumeration of FASTA inputs, every one built through the real SkaDict::new and compared with the string/set reference model: (a) every single record over {A,C,G,T,N} up to the tier's length (quick 8, thorough 10) at k=5 and k=7 (quick tier at k=7: strands-merged/64-bit and single-strand/128-bit only); (b) for all 30 k, every prefix (k-1..k+3) of a repeat-free base string with N/n at every single position and every pair of positions, in three case patterns; (b3) for all 30 k a run of N of length 1, 2, k-1, k, k+1, k+2, 2k+1 between valid stretches, at the record start and end; (b2) for all 30 k two N with 0..k valid bases between them (or the record start in place of the first N) and k+2 valid bases behind; (c) forced collisions: every k-mer (k=5; a stride subset at k=7) followed by every combination of two further observations of the same arms with another middle base, as is or reverse-complemented; (d) every ordered triple from a pool of records of length below/at/above k; (e) k-mers on both sides of an N run: L+N+R for all k-mers L x representative R and representative L x all (k+1)-mers R (thorough: full product), so that any state carried across a restart is exercised; each in both strand modes and both integer widths where valid; plus CLI build+nk report comparison. Non-trivial = the model expects at least one split k-mer.".into(),
         assumptions: vec!["an input without any split k-mer may be refused or yield an empty table".into()],
         exhaustive_when_uncapped: true,
     }
@@ -245,6 +245,31 @@ pub fn run(ctx: &Ctx, rep: &mut Report) {
                 }
             }
             rep.completed.push(format!("(b2) k={k}"));
+        }
+    }
+
+    // (b3) every k: a run of N of length 1, 2, k-1, k, k+1, k+2, 2k+1 between two stretches of k+1 valid bases, and at the
+    // record start
+    if !capped {
+        for k in ALL_K {
+            let base = repeat_free(2 * k + 3, k, 0, ctx.seed + 3);
+            for r in [1usize, 2, k - 1, k, k + 1, k + 2, 2 * k + 1] {
+                idx += 1;
+                if !ctx.mine(idx) {
+                    continue;
+                }
+                let run: Vec<u8> = (0..r).map(|i| if i % 3 == 2 { b'n' } else { b'N' }).collect();
+                for s in [[&base[..k + 1], run.as_slice(), &base[k + 1..]].concat(), [run.as_slice(), &base[..k + 2]].concat(), [&base[..k + 2], run.as_slice()].concat()] {
+                    for rc in [true, false] {
+                        for wide in widths(k) {
+                            let recs = [s.clone()];
+                            check_case(rep, &recs, k, rc, *wide);
+                        }
+                    }
+                }
+                rep.corner("long_run_of_N");
+            }
+            rep.completed.push(format!("(b3) k={k}"));
         }
     }
 
